@@ -59,6 +59,11 @@ func (e *Engine) FindIndices(haystack []byte) (start, end int, found bool) {
 // FindIndicesAt returns the start and end indices of the first match starting at position 'at'.
 // Returns (-1, -1, false) if no match is found.
 func (e *Engine) FindIndicesAt(haystack []byte, at int) (start, end int, found bool) {
+	// A start position past the end cannot match (same guard as FindAt).
+	if at > len(haystack) {
+		return -1, -1, false
+	}
+
 	// Early impossibility check: anchored pattern can only match at position 0
 	if at > 0 && e.nfa.IsAlwaysAnchored() {
 		return -1, -1, false
